@@ -100,7 +100,7 @@ def _rules_abd(repo: Repo, rep: Report) -> None:
                 rep.ob("C01.d-snapshot-before-yield", mem, cls + ".remove", "no inner index level is pruned", True, "only depth-3 entries are deleted, outer key snapshots stay valid keys", node=rmf)
 
         # ------------------------------------------------------------ shapes
-        ti = H.PatternInterp(mem, cls, orders, ctx_aware)
+        ti = H.PatternInterp(mem, cls, orders, ctx_aware, repo)
         per_shape = {}
         for b in H.shapes():
             before = len(ti.yields)
@@ -112,11 +112,11 @@ def _rules_abd(repo: Repo, rep: Report) -> None:
                    "reachable" if n else "no yield is reachable for pattern shape %s: matching triples are never returned" % shape, node=ti.fn)
         seen = set()
         for y in ti.yields:
-            key = (y.shape, id(y.node))
+            key = (y.shape, id(y.node), y.via)  # one obligation per way a shape reaches the yield (through which yield of a generator it consumes)
             if key in seen:
                 continue
             seen.add(key)
-            rep.ob("C01.b-pattern-shapes", mem, cls + ".triples", "shape %s: yield %s" % (y.shape, norm(y.node.value)[:60]), not y.problems,
+            rep.ob("C01.b-pattern-shapes", ti.mod_of(y.node), cls + ".triples", "shape %s: yield %s" % (y.shape, norm(y.node.value)[:60]), not y.problems,
                    "justified by index %s" % y.index if not y.problems else "; ".join(y.problems), node=y.node)
             if cls == "Memory":
                 for loop, snap in y.loops:
@@ -124,7 +124,7 @@ def _rules_abd(repo: Repo, rep: Report) -> None:
                     if lk in seen:
                         continue
                     seen.add(lk)
-                    rep.ob("C01.d-snapshot-before-yield", mem, cls + ".triples", "for %s in %s" % (norm(loop.target), norm(loop.iter)), snap,
+                    rep.ob("C01.d-snapshot-before-yield", ti.mod_of(loop), cls + ".triples", "for %s in %s" % (norm(loop.target), norm(loop.iter)), snap,
                            "iterates a snapshot" if snap else "yields while iterating live store state: a mutation during iteration raises `dictionary changed size during iteration`", node=loop)
         useen = set()
         for node, why in ti.unmodelled:
@@ -132,7 +132,7 @@ def _rules_abd(repo: Repo, rep: Report) -> None:
             if k in useen:
                 continue
             useen.add(k)
-            rep.ob("C01.b-pattern-shapes", mem, cls + ".triples", node if not isinstance(node, (ast.If, ast.For, ast.Try)) else norm(node).split(":")[0], False,
+            rep.ob("C01.b-pattern-shapes", ti.mod_of(node), cls + ".triples", node if not isinstance(node, (ast.If, ast.For, ast.Try)) else norm(node).split(":")[0], False,
                    "unjustified construct on the way to a yield: " + why, node=node)
         for t in ti.truthy_tests:
             rep.ob("C01.b-pattern-shapes", mem, cls + ".triples", t, False,
@@ -162,23 +162,15 @@ def _rules_e(repo: Repo, rep: Report) -> None:
              "the per-triple context map only ever stores dict displays or .copy() results, and no statement mutates "
              "in place a dict that may be the shared default-context dict (subscript store / del on a value obtained "
              "from the default-context attribute without .copy())", floor=4)
-    dflt = None
-    init = mem.func("Memory.__init__")
-    for n in own_nodes(init):
-        if isinstance(n, (ast.AnnAssign, ast.Assign)):
-            t = n.target if isinstance(n, ast.AnnAssign) else n.targets[0]
-            a = roles.self_attr(t)
-            if a and "default" in a.lower() and "context" in a.lower():
-                dflt = a
-    tc = None
-    for n in own_nodes(init):
-        if isinstance(n, (ast.AnnAssign, ast.Assign)):
-            t = n.target if isinstance(n, ast.AnnAssign) else n.targets[0]
-            a = roles.self_attr(t)
-            if a and "triplecontexts" in a.lower():
-                tc = a
-    if dflt is None or tc is None:
-        raise AnalysisError("Memory.__init__: default-context / triple-context attributes not found")
+    # the two attributes by what add() does with them, not by what they are called (vlib/h_c01.context_state): the per-triple map is where add()
+    # stores an entry under the triple; the default-context attribute is the one add() binds to such an entry
+    from vlib import h_c01 as H
+
+    tc, dflts = H.context_state(mem, "Memory")
+    if tc is None or len(dflts) != 1:
+        raise AnalysisError("Memory.add: the per-triple context map / the shared default-context attribute are not recognised (map %s, default %s)" % (tc, sorted(dflts)))
+    dflt = next(iter(dflts))
+    rep.info["Memory_context_state"] = {"per_triple_map": tc, "default_contexts": dflt}
     for m, f in mem.methods("Memory").items():
         may_alias: set[str] = set()
         for n in own_nodes(f):
@@ -347,13 +339,8 @@ def _rules_f(repo: Repo, rep: Report) -> None:
     want = {"__add__": {"A", "B", "AB"}, "__mul__": {"AB"}, "__sub__": {"A"}, "__xor__": {"A", "B"}}
     venn_cache: dict[str, set] = {}
     gmeths = gm.methods("Graph")
-    # the names under which itertools.chain is reachable in the module
-    chain_names: set[str] = set()
-    for st in gm.tree.body:
-        if isinstance(st, ast.ImportFrom) and st.module == "itertools":
-            chain_names.update((a.asname or a.name) for a in st.names if a.name == "chain")
-        elif isinstance(st, ast.Import):
-            chain_names.update((a.asname or a.name) + ".chain" for a in st.names if a.name == "itertools")
+    # what a name / dotted name used as a callable denotes, through the imports of the module (itertools.chain however it was imported)
+    denotes_mod = H.Denotes(gm)
 
     def fresh_ctor(fn: ast.FunctionDef, e: ast.AST, depth: int = 0) -> bool:
         """e, evaluated in method fn, is a graph nobody else holds yet: a constructor call without arguments of the receiver's class
@@ -416,18 +403,68 @@ def _rules_f(repo: Repo, rep: Report) -> None:
                     return {"B", "AB"}
             return None
 
+        preds: dict[str, tuple] = {}
+        denotes = denotes_mod.within(gm, f)
+
+        def pred_of(e: ast.AST, f=None) -> tuple | None:
+            """(operand, True) when the callable e answers `x in operand` for its argument x, (operand, False) when it answers `x not in operand`:
+            operand.__contains__, functools.partial(operator.contains, operand), a lambda whose body is that test, a local bound once to one of them"""
+            if isinstance(e, ast.Name) and e.id in preds:
+                return preds[e.id]
+            if isinstance(e, ast.Attribute) and e.attr == "__contains__" and isinstance(e.value, ast.Name) and e.value.id in (A, B):
+                return (e.value.id, True)
+            if isinstance(e, ast.Call) and denotes(e.func) == "functools.partial" and len(e.args) == 2 and not e.keywords \
+                    and denotes(e.args[0]) == "operator.contains" and isinstance(e.args[1], ast.Name) and e.args[1].id in (A, B):
+                return (e.args[1].id, True)
+            if isinstance(e, ast.Lambda) and len(e.args.args) == 1 and not (e.args.posonlyargs or e.args.kwonlyargs or e.args.vararg or e.args.kwarg or e.args.defaults):
+                x, t = e.args.args[0].arg, e.body
+                neg = False
+                while isinstance(t, ast.UnaryOp) and isinstance(t.op, ast.Not):
+                    neg, t = not neg, t.operand
+                if x not in (A, B) and isinstance(t, ast.Compare) and len(t.ops) == 1 and isinstance(t.ops[0], (ast.In, ast.NotIn)) and isinstance(t.left, ast.Name) \
+                        and t.left.id == x and isinstance(t.comparators[0], ast.Name) and t.comparators[0].id in (A, B):
+                    return (t.comparators[0].id, isinstance(t.ops[0], ast.In) != neg)
+            return None
+
+        def keep(segs: list, pred: tuple) -> list:
+            """the segments of a stream of triples after keeping those for which the membership predicate holds"""
+            g_, positive = pred
+            out = []
+            for src_, base in segs:
+                if g_ == src_:  # a triple enumerated from an operand is in that operand
+                    out.append((src_, set(base) if positive else set()))
+                else:
+                    out.append((src_, (base & {"AB"}) if positive else (base - {"AB"})))
+            return out
+
         def sources(it: ast.AST) -> list | None:
-            """the operands whose triples the iterable enumerates, one after the other: an operand, a snapshot or iter() of one, itertools.chain of
-            such iterables, a concatenation of such lists"""
+            """the stream of triples the iterable enumerates, as segments (operand they come from, Venn regions they lie in): an operand, a snapshot or
+            iter() of a stream, itertools.chain of streams, a concatenation of lists, filter / itertools.filterfalse of a stream by a membership
+            predicate (pred_of), a comprehension or generator expression that hands on the elements of a stream under membership tests"""
             it = H.unsnap(it)[0]
-            if isinstance(it, ast.Call) and isinstance(it.func, ast.Name) and it.func.id == "iter" and len(it.args) == 1:
+            if isinstance(it, ast.Call) and denotes(it.func) == "builtins.iter" and len(it.args) == 1 and not it.keywords:
                 return sources(it.args[0])
             if isinstance(it, ast.Name) and it.id in (A, B):
-                return [it.id]
+                return [(it.id, {"A", "AB"} if it.id == A else {"B", "AB"})]
+            if isinstance(it, ast.Call) and denotes(it.func) in ("builtins.filter", "itertools.filterfalse") and len(it.args) == 2 and not it.keywords:
+                pr, inner = pred_of(it.args[0]), sources(it.args[1])
+                if pr is None or inner is None:
+                    return None
+                return keep(inner, pr if denotes(it.func) == "builtins.filter" else (pr[0], not pr[1]))
+            if isinstance(it, (ast.GeneratorExp, ast.ListComp)) and len(it.generators) == 1 and not it.generators[0].is_async \
+                    and isinstance(it.generators[0].target, ast.Name) and isinstance(it.elt, ast.Name) and it.elt.id == it.generators[0].target.id \
+                    and it.elt.id not in (A, B):
+                inner = sources(it.generators[0].iter)
+                for c in it.generators[0].ifs:
+                    pr = pred_of(ast.Lambda(args=ast.arguments(posonlyargs=[], args=[ast.arg(arg=it.elt.id)], vararg=None, kwonlyargs=[], kw_defaults=[], kwarg=None, defaults=[]), body=c))
+                    if pr is None or inner is None:
+                        return None
+                    inner = keep(inner, pr)
+                return inner
             parts = None
-            if isinstance(it, ast.Call) and norm(it.func) in chain_names and not it.keywords:
+            if isinstance(it, ast.Call) and denotes(it.func) == "itertools.chain" and not it.keywords:
                 parts = list(it.args)
-            elif isinstance(it, ast.Call) and isinstance(it.func, ast.Attribute) and it.func.attr == "from_iterable" and norm(it.func.value) in chain_names \
+            elif isinstance(it, ast.Call) and denotes(it.func) == "itertools.chain.from_iterable" and not it.keywords \
                     and len(it.args) == 1 and isinstance(it.args[0], (ast.Tuple, ast.List)):
                 parts = list(it.args[0].elts)
             elif isinstance(it, ast.BinOp) and isinstance(it.op, ast.Add):
@@ -451,6 +488,10 @@ def _rules_f(repo: Repo, rep: Report) -> None:
                     for h in s.handlers:
                         walk(h.body, cond)
                     continue
+                if isinstance(s, ast.Assign) and len(s.targets) == 1 and isinstance(s.targets[0], ast.Name) and s.targets[0].id not in (A, B) \
+                        and len(binds_f.get(s.targets[0].id, ())) == 1 and pred_of(s.value) is not None:
+                    preds[s.targets[0].id] = pred_of(s.value)  # a local bound (once) to a membership predicate
+                    continue
                 if isinstance(s, ast.Assign) and isinstance(s.targets[0], ast.Name) and isinstance(s.value, ast.Call):
                     if fresh_ctor(f, s.value):
                         fresh.add(s.targets[0].id)
@@ -467,9 +508,9 @@ def _rules_f(repo: Repo, rep: Report) -> None:
                             continue
                         raise AnalysisError("Graph.%s: unmodelled loop over %s" % (name, src))
                     var = norm(s.target)
-                    for one in srcs:
+                    for one, base in srcs:
                         for b in s.body:
-                            handle_body(b, var, one, {"A", "AB"} if one == A else {"B", "AB"})
+                            handle_body(b, var, one, set(base))
                     continue
                 if isinstance(s, ast.Return):
                     v = s.value
@@ -509,6 +550,7 @@ def _rules_f(repo: Repo, rep: Report) -> None:
             raise AnalysisError("Graph.%s: unmodelled loop body %s" % (name, norm(b)[:60]))
 
         rets: list = []
+        binds_f = H._bindings(f)
         walk(f.body, None)
         venn_cache[name] = regions
         for kind, s in rets:
@@ -689,6 +731,7 @@ def _local_defs(fn: ast.AST) -> dict:
     """name -> expressions it is bound to in fn (assignments; `a = b[k] = {}` binds a to b[k] as well; the target of a loop over
     X.values() / X.items() is bound to X)"""
     defs: dict = {}
+    loops: list = []
     for n in own_nodes(fn):
         if isinstance(n, ast.Assign):
             for t in n.targets:
@@ -705,7 +748,31 @@ def _local_defs(fn: ast.AST) -> dict:
                 for t in ast.walk(n.target):
                     if isinstance(t, ast.Name):
                         defs.setdefault(t.id, []).append(it.func.value)
+            else:
+                loops.append((n.target, it))
+    # a loop over a table written out as a display (here, or bound to a local name): the target names stand for the entries of its rows
+    for target, it in loops:
+        rows = _display_leaves(it, defs, frozenset())
+        for t in ast.walk(target):
+            if isinstance(t, ast.Name) and rows:
+                defs.setdefault(t.id, []).extend(rows)
     return defs
+
+
+def _display_leaves(e: ast.AST, defs: dict, seen: frozenset) -> list:
+    """the expressions a tuple / list display (possibly nested, possibly reached through a local name) is made of; [] when e is not a display"""
+    if isinstance(e, (ast.Tuple, ast.List)):
+        out: list = []
+        for x in e.elts:
+            sub = _display_leaves(x, defs, seen)
+            out += sub if sub else [x.value if isinstance(x, ast.Starred) else x]
+        return out
+    if isinstance(e, ast.Name) and e.id not in seen:
+        out = []
+        for v in defs.get(e.id, ()):
+            out += _display_leaves(v, defs, seen | {e.id})
+        return out
+    return []
 
 
 def _unsnap(it: ast.AST) -> tuple:
@@ -765,6 +832,8 @@ _run_base2 = run
 
 def run(repo: Repo, rep: Report) -> None:  # noqa: F811
     _layer(rep, _run_base2, repo)
+    from vlib import h_c01 as H
+
     gm = repo.mod("rdflib.graph")
     mem = repo.mod("rdflib.plugins.stores.memory")
     T = repo.typed
@@ -787,13 +856,37 @@ def run(repo: Repo, rep: Report) -> None:  # noqa: F811
         if len(state) < 3:
             raise AnalysisError("%s: add()/remove() change fewer than three attributes (%s): index state not recognised" % (cls, sorted(state)))
         rep.info["%s_triple_state" % cls] = sorted(state)
-        for m, f in mem.methods(cls).items():
-            defs = _local_defs(f)
+        # the functions in which the state is iterated: the methods of the class, and the module-level functions of the package that a method
+        # hands a live view of the state to (their parameter then stands for that view) - the index walk may live in a function of its own
+        units = [(mem, "%s.%s" % (cls, m), f, _local_defs(f)) for m, f in mem.methods(cls).items()]
+        done: set = set()
+        k = 0
+        while k < len(units):
+            umod, uq, uf, udefs = units[k]
+            k += 1
+            for c in own_nodes(uf):
+                r = H.package_function(repo, umod, uf, c) if isinstance(c, ast.Call) else None
+                if r is None or any(isinstance(a, ast.Starred) for a in c.args):
+                    continue
+                gmod, g = r
+                gps = [a.arg for a in g.args.posonlyargs + g.args.args]
+                handed = [(p_, a) for p_, a in zip(gps, c.args)] + [(kw.arg, kw.value) for kw in c.keywords if kw.arg]
+                gdefs = None
+                for p_, a in handed:
+                    roots = _self_attr_root(a, udefs) & state
+                    if roots:
+                        gdefs = gdefs if gdefs is not None else _local_defs(g)
+                        gdefs.setdefault(p_, []).extend(ast.Attribute(value=ast.Name(id="self", ctx=ast.Load()), attr=r_, ctx=ast.Load()) for r_ in sorted(roots))
+                key = (id(g), tuple(sorted((p_, tuple(sorted(_self_attr_root(a, udefs) & state))) for p_, a in handed)))
+                if gdefs is not None and key not in done and len(units) < 200:
+                    done.add(key)
+                    units.append((gmod, "%s (called from %s)" % (g.name, uq), g, gdefs))
+        for umod, uq, f, defs in units:
             sites = []
             for n in own_nodes(f):
                 if isinstance(n, ast.For) and _has_yield(n.body):
                     sites.append((n, n.iter, "for %s in %s" % (norm(n.target), norm(n.iter))))
-                elif isinstance(n, ast.GeneratorExp) and not isinstance(mem.parent.get(id(n)), ast.Call):
+                elif isinstance(n, ast.GeneratorExp) and not isinstance(umod.parent.get(id(n)), ast.Call):
                     for g_ in n.generators:
                         sites.append((n, g_.iter, "(... for %s in %s)" % (norm(g_.target), norm(g_.iter))))
             for node, it, what in sites:
@@ -801,7 +894,7 @@ def run(repo: Repo, rep: Report) -> None:  # noqa: F811
                 live = _self_attr_root(inner, defs) & state
                 if not live:
                     continue
-                rep.ob("C01.k-every-store-iterates-snapshots", mem, "%s.%s" % (cls, m), what[:120], snap,
+                rep.ob("C01.k-every-store-iterates-snapshots", umod, uq, what[:120], snap,
                        "iterates a copy of self.%s state" % "/".join(sorted(live)) if snap else
                        "yields while iterating the live %s structure that add()/remove() resize: a mutation of the store while this generator is suspended "
                        "raises `RuntimeError: dictionary changed size during iteration` in the consumer (e.g. g -= g, or remove() from a second graph over the "
@@ -818,16 +911,10 @@ def run(repo: Repo, rep: Report) -> None:  # noqa: F811
              "tell a triple with the default context info from one that was removed after the iteration snapshotted its keys, so "
              "`for t in g1.triples((s, None, None)): g2.remove((s, p2, o2))` (g1, g2 over one store, both holding (s,p2,o2)) still yields the removed "
              "triple from g1's iterator as if it were present", floor=1)
-    init = mem.func("Memory.__init__")
-    dflt = None
-    for n in own_nodes(init):
-        if isinstance(n, (ast.AnnAssign, ast.Assign)):
-            t = n.target if isinstance(n, ast.AnnAssign) else n.targets[0]
-            a = roles.self_attr(t)
-            if a and "default" in a.lower() and "context" in a.lower():
-                dflt = a
-    if dflt is None:
-        raise AnalysisError("Memory.__init__: default-context attribute not found")
+    _tc, dflts = H.context_state(mem, "Memory")
+    if len(dflts) != 1:
+        raise AnalysisError("Memory.add: the shared default-context attribute (the attribute add() binds to the context dict of a triple) is not recognised: %s" % sorted(dflts))
+    dflt = next(iter(dflts))
     for cls in store_classes:
         meths = mem.methods(cls)
         if not any(roles.self_attr(x) == dflt for f in meths.values() for x in own_nodes(f)):
